@@ -3,15 +3,17 @@ import os
 
 HERE = os.path.dirname(os.path.abspath(__file__))
 VERIF = os.path.dirname(HERE)
+# selftest runs redirect evidence and replays so that they do not overwrite the evidence of the real tree
+OUT = os.environ.get('VERIF_OUT') or VERIF
 
 
 def write_evidence(prop_id, tier, seed, coverage, assumptions, wall_s, violations):
-    os.makedirs(os.path.join(VERIF, 'evidence'), exist_ok=True)
+    os.makedirs(os.path.join(OUT, 'evidence'), exist_ok=True)
     ev = {
         'property_id': prop_id, 'tier': tier, 'seed': int(seed), 'level': 'proof',
         'coverage': coverage, 'assumptions': assumptions, 'wall_s': round(wall_s, 2), 'violations': int(violations),
     }
-    path = os.path.join(VERIF, 'evidence', '%s.json' % prop_id)
+    path = os.path.join(OUT, 'evidence', '%s.json' % prop_id)
     tmp = path + '.tmp'
     with open(tmp, 'w') as f:
         json.dump(ev, f, indent=1, sort_keys=True, default=str)
@@ -20,11 +22,11 @@ def write_evidence(prop_id, tier, seed, coverage, assumptions, wall_s, violation
 
 
 def write_replay(prop_id, kind, payload):
-    os.makedirs(os.path.join(VERIF, 'replays'), exist_ok=True)
+    os.makedirs(os.path.join(OUT, 'replays'), exist_ok=True)
     import hashlib
     body = json.dumps(payload, sort_keys=True, default=str)
     name = '%s_%s_%s.json' % (prop_id, kind, hashlib.sha1(body.encode()).hexdigest()[:10])
-    path = os.path.join(VERIF, 'replays', name)
+    path = os.path.join(OUT, 'replays', name)
     with open(path, 'w') as f:
         json.dump(payload, f, indent=1, sort_keys=True, default=str)
-    return os.path.relpath(path, VERIF)
+    return os.path.relpath(path, VERIF) if OUT == VERIF else path
